@@ -196,7 +196,8 @@ def _run(ctx):
     ctx.ob("C04.agree", "spec entry", [x["endian"] for x in sp["index_entry"]] == ["BigEndian", "BigEndian"], "ESRI: two BE i32", trivial=True)
     ws = F.inherent_method("reader::ShapeReader", "with_shx")
     if ws:
-        ps, _ = util.run_fn(F, ws[0], inline=lambda g, t: False)
+        # a private constructor shared by new / with_shx is followed (it returns the reader); parsers stay calls
+        ps, _ = util.run_fn(F, ws[0], inline=lambda g, t: 'reader::ShapeReader<' in g["locals"][0]["ty"])
         succ = [p for p in ps if is_agg(p.ret, None, 'Ok')]
         good = bool(succ)
         for p in succ:
